@@ -503,7 +503,8 @@ fn main() {
             net::PANICS.lock().unwrap().push(format!("{info}"));
             let _ = &default;
         }));
-        let (l, s) = net::run_net(n.parse().unwrap(), seed, nb);
+        let plan = if n.contains(':') { n.to_string() } else { format!("tcp:mix:{n}") };
+        let (l, s) = net::run_net(&plan, seed, nb);
         if let Some(path) = args.get("netout") {
             write_lines(path, &l);
         } else {
